@@ -7,11 +7,13 @@ from mc import pool, wire, refms
 BODY1 = "keep;\r\n"
 BODY2 = "# c\r\nif true {\r\n  stop;\r\n}\r\n"
 BODY3 = "# a\u2028b\x0cc\x85d\r\nkeep;\r\n"
+# a name that fits a quoted string (1024 octets) only before its quotes are escaped
+LONGQ = 'archive "2024" ' + "x" * 1009
 EVENTS = [
     ("listscripts",), ("getscript", "a"), ("getscript", "b"), ("putscript", "a", BODY1), ("putscript", "b", BODY2), ("putscript", "b", BODY3),
     ("putscript", "a", BODY2), ("deletescript", "a"), ("deletescript", "b"), ("setactive", "a"), ("setactive", "b"),
     ("setactive", ""), ("renamescript", "a", "b"), ("renamescript", "b", "a"), ("havespace", "a", 10), ("checkscript", BODY1),
-    ("capability",),
+    ("capability",), ("putscript", LONGQ, BODY1), ("deletescript", LONGQ),
 ]
 INITIAL = [
     ({}, None),
@@ -43,6 +45,22 @@ def expected(ev, pre_store, pre_active, srv, nlog0):
     if op == "capability":
         return ("bytes", srv.capability_lines()) if last_ok else ("value", None)
     return ("value", True if last_ok else False)
+
+
+def implied_state(ev, o, srv):
+    """a reported success says something about the server's state: it must be true there (None = fine)"""
+    if not (o.kind == "ret" and o.value is True):
+        return None
+    op = ev[0]
+    if op == "putscript" and norm_lines(srv.store.get(ev[1], b"\0")) != norm_lines(ev[2]):
+        return "putscript reported success but the server does not hold that content under %r (it has %r)" % (ev[1][:30], sorted(n[:30] for n in srv.store))
+    if op == "deletescript" and ev[1] in srv.store:
+        return "deletescript reported success but %r still exists" % ev[1][:30]
+    if op == "setactive" and (srv.active or "") != ev[1]:
+        return "setactive(%r) reported success but the active script is %r" % (ev[1][:30], srv.active)
+    if op == "renamescript" and (ev[1] in srv.store or ev[2] not in srv.store):
+        return "renamescript reported success but the store is %r" % sorted(n[:30] for n in srv.store)
+    return None
 
 
 def matches(exp, o):
@@ -113,6 +131,10 @@ def run_history(init_i, version, hist, prefix, seg_choice):
                 bad = ("no-return", "%s does not return" % ev[0])
             elif not matches(exp, o):
                 bad = ("result", "%s%r returned %s, the server's answer means %r" % (ev[0], tuple(x if len(str(x)) < 12 else "body" for x in ev[1:]), o.brief(), exp))
+        if bad is None:
+            why = implied_state(ev, o, srv)
+            if why:
+                bad = ("state", why)
         if bad is None and o.leftover:
             bad = ("unread-bytes", "%d bytes left unread after %s" % (o.leftover, ev[0]))
         if bad is None and srv.violations:
@@ -147,7 +169,7 @@ def explore_history(init_i, version, hist, bound):
 
 
 def ev_label(ev):
-    return "%s(%s)" % (ev[0], ",".join("body" if isinstance(x, str) and len(x) > 3 else repr(x) for x in ev[1:]))
+    return "%s(%s)" % (ev[0], ",".join(("longq" if x == LONGQ else "body") if isinstance(x, str) and len(x) > 3 else repr(x) for x in ev[1:]))
 
 
 def task(t):
